@@ -179,6 +179,24 @@ def r4_restart(ctx):
     ctx.check(prop, 'stage-error-propagated', 'a panicking start-up stage is reported', f.where())
 
 
+def r7_activate_unconditional(ctx):
+    """the timer bookkeeping of activate (bump, clearing a reached next_wakeup, installing the driver) does not depend on the
+    module's active flag: a stale wake-up of a shut-down module and the restart event (which activates before the flag is set)
+    must still clear `next_wakeup`, otherwise the restarted module's timers are never scheduled"""
+    ctx.set_rule('C09.R7')
+    f = ctx.anchor('des::net::module::refs::ModuleRef::activate')
+    if not f:
+        return
+    D = 'des::time::driver::'
+    sites = [(s.b, short(s.name)) for s in f.calls() if s.name in (D + 'Driver::bump', D + 'Driver::set')] + [(b, 'next_wakeup clear') for (b, i, st) in f.writes_to_field('next_wakeup')]
+    if not ctx.floor('timer bookkeeping sites in activate', len(sites), 3):
+        return
+    for b, what in sites:
+        atoms = [a for _, a in f.guard_atoms(b)]
+        dep = [a for a in atoms if a[0] == 'bool' and _reads_active(ctx.P, a[1])]
+        ctx.check(not dep, 'activate-bookkeeping-unconditional', 'activate performs its timer bookkeeping (%s) whether or not the module is currently active' % what, f.where(b), [show_atom(a) for a in dep])
+
+
 def r5_reset_order(ctx):
     ctx.set_rule('C09.R5')
     f = ctx.anchor(EV + 'reset')
@@ -235,3 +253,4 @@ def run(ctx):
     r4_restart(ctx)
     r5_reset_order(ctx)
     r6_writers_of_active(ctx)
+    r7_activate_unconditional(ctx)
